@@ -387,6 +387,8 @@ impl CompactionWorker {
                     new_level = compaction_manifest.level() + 1,
                     level_summary = db_fields_guard.version_set.level_summary()
                 );
+
+                compaction_manifest.release_inputs(&mut db_fields_guard.version_set);
             } else {
                 let compaction_result = CompactionWorker::compact_tables(
                     db_state,
